@@ -76,4 +76,8 @@ CLAIMED = {
    text="Three generators attack totality: grammar-directed hostile projects, token-level corruptions of generated texts and of the repository's 24 fixtures, and coverage-guided fuzzing (atheris/libFuzzer with a token dictionary, fixture-seeded and empty corpus). Every outcome is classified (rejected with a parse-level error / accepted / accepted-infeasible); accepted inputs must schedule within a CPU bound, every leaf must be scheduled inside the horizon or unscheduled with a warning; anything else is an internal error bucketed by (type, innermost scriptplan frame).",
    note="Liveness only up to the CPU bound (20 s, confirmed by solitary re-runs with twice the limit; otherwise inconclusive); SystemExit(1) after an error message counts as rejection (MessageHandler.error is the package's way to reject). libFuzzer runs are pinned by -seed/-runs only approximately.",
    technique="property-based testing (Hypothesis: grammar-directed + mutation) and coverage-guided fuzzing (atheris) with a semantic oracle in the target"),
+ "C12": dict(
+   text="A Hypothesis rule-based state machine drives one long-lived interpreter through interleaved parse / schedule / re-schedule / report / CLI-style / failing-parse / fault-injected-schedule / drop operations over a pool of projects of different shapes; after every operation that yields a result the digest of dates, ledger, report JSON/CSV and files is compared with the digest of the same text computed in a fresh process. Fresh-process digests are additionally compared across PYTHONHASHSEED values and a spawned multiprocessing worker.",
+   note="The reference is the same code in a fresh process (the property is about independence from history, not about correctness); fault injection patches TaskScenario.schedule for one call and restores it.",
+   technique="stateful / model-based property-based testing (Hypothesis RuleBasedStateMachine) with fault injection against fresh-process references"),
 }
